@@ -1088,9 +1088,12 @@ def find_replace(
             indentation = matched_first_line[: len(matched_first_line) - len(matched_first_line.lstrip(" \t"))]
 
         template_replacement = textwrap.dedent(template_replacement)
-        first_line, newline, other_lines = template_replacement.partition("\n")
-        other_lines = textwrap.indent(other_lines, indentation)
-        template_replacement = first_line + newline + other_lines
+        # Lines that begin inside a string literal are content, not code: never indent them
+        string_literal_lines = _lines_inside_string_literals(template_replacement)
+        template_replacement = "\n".join(
+            line if i == 0 or i in string_literal_lines or not line.strip() else indentation + line
+            for i, line in enumerate(template_replacement.split("\n"))
+        )
 
         item = [replacement_range, template_replacement]
         if transaction is not None:
